@@ -530,7 +530,10 @@ def d1_cost(ck, R):
         forms += ['%s.mean()' % s, 'np.average(%s)' % s, 'float(%s.mean())' % s, '%s.mean(axis=0)' % s,
                   '%s.sum() / len(%s)' % (s, x), '%s.sum() / %s.size' % (s, x), '%s.sum() / %s.shape[0]' % (s, x),
                   'sum(%s) / len(%s)' % (s, x)]
-    forms += ['np.dot(%s, %s) / len(%s)' % (x, x, x), '%s.dot(%s) / len(%s)' % (x, x, x), '(%s @ %s) / len(%s)' % (x, x, x)]
+    for n in ('len(%s)' % x, 'float(len(%s))' % x, '%s.size' % x, '%s.shape[0]' % x):
+        forms += ['np.dot(%s, %s) / %s' % (x, x, n), '%s.dot(%s) / %s' % (x, x, n), '(%s @ %s) / %s' % (x, x, n),
+                  'np.inner(%s, %s) / %s' % (x, x, n), 'np.vdot(%s, %s) / %s' % (x, x, n), 'np.linalg.norm(%s) ** 2 / %s' % (x, n)]
+        forms += ['%s.sum() / %s' % (sq_, n) for sq_ in sq]
     v = classify(modelled, forms, scope={x})
     ck.decide(v, rule, mod, node, gname if not isinstance(g, ast.Lambda) else PAM, u(node)[:200],
               'candidates are ordered by the mean SQUARED distance',
@@ -1474,13 +1477,16 @@ def _offset_forms(L, T):
     cs = 'np.cumsum(%s)' % L
     out = ['sum(%s[:%s])' % (L, T), '%s[:%s].sum()' % (L, T), 'sum(%s[0:%s])' % (L, T), '%s[0:%s].sum()' % (L, T),
            'int(%s[:%s].sum())' % (L, T), 'int(sum(%s[:%s]))' % (L, T), 'np.asarray(%s)[:%s].sum()' % (L, T),
-           'sum(list(%s)[:%s])' % (L, T), 'sum(%s[_J] for _J in range(%s))' % (L, T), 'sum([%s[_J] for _J in range(%s)])' % (L, T),
+           'sum(list(%s)[:%s])' % (L, T), 'np.sum(%s[:%s], dtype=int)' % (L, T), 'int(np.sum(%s[:%s], dtype=int))' % (L, T), 'sum(%s[_J] for _J in range(%s))' % (L, T), 'sum([%s[_J] for _J in range(%s)])' % (L, T),
            '%s[%s] - %s[%s]' % (cs, T, L, T), '(%s - %s)[%s]' % (cs, L, T), '(%s - np.asarray(%s))[%s]' % (cs, L, T)]
     starts = []
     for tail in ('%s[:-1]' % L, L):
         for tl in ('list(%s)' % tail, tail):
             starts += ['np.cumsum([0] + %s)' % tl]
-        starts += ['np.concatenate(([0], np.cumsum(%s)))' % tail, 'np.concatenate([[0], np.cumsum(%s)])' % tail,
+        starts += ['np.cumsum(np.concatenate(([0], %s)))' % tail, 'np.cumsum(np.concatenate([[0], %s]))' % tail,
+                   'np.cumsum(np.r_[0, %s])' % tail, 'np.cumsum(np.insert(%s, 0, 0))' % tail, 'np.cumsum(np.append(0, %s))' % tail,
+                   'np.cumsum(np.append([0], %s))' % tail, 'np.cumsum(np.hstack(([0], %s)))' % tail,
+                   'np.concatenate(([0], np.cumsum(%s)))' % tail, 'np.concatenate([[0], np.cumsum(%s)])' % tail,
                    'np.insert(np.cumsum(%s), 0, 0)' % tail, 'np.r_[0, np.cumsum(%s)]' % tail,
                    'np.hstack(([0], np.cumsum(%s)))' % tail, 'np.hstack([[0], np.cumsum(%s)])' % tail,
                    'np.append(0, np.cumsum(%s))' % tail, 'np.append([0], np.cumsum(%s))' % tail]
@@ -1534,7 +1540,9 @@ def d8_warm_start(ck):
             continue
         forms = []
         for o in _offset_forms(XL, T):
-            forms += ['%s + %s' % (o, F), '%s + %s' % (F, o), 'int(%s + %s)' % (o, F), 'int(%s) + %s' % (o, F), 'int(%s) + int(%s)' % (o, F)]
+            forms += ['%s + %s' % (o, F), '%s + %s' % (F, o), 'int(%s + %s)' % (o, F), 'int(%s) + %s' % (o, F), 'int(%s) + int(%s)' % (o, F),
+                      'int(%s + %s)' % (F, o), '%s + int(%s)' % (F, o)]
+        forms += ['sum(%s[:%s], %s)' % (XL, T, F), 'sum(%s[0:%s], %s)' % (XL, T, F)]
         v = classify(elt, forms, scope={XL, T, F})
         ck.decide(v, rule, mod, s, INPUTS, u(canon(e))[:200],
                   'centre (t, f) -> sum(lengths[:t]) + f, its index in the concatenated data',
